@@ -72,10 +72,7 @@ func (r *Runner) walk() ev {
 	files := [][]interface{}{}
 	extra := []string{}
 	hasSchema := false
-	suffix := r.cfg.Ext
-	if suffix == "" {
-		suffix = ".json"
-	}
+	suffix := extOf(r.cfg)
 	if r.cfg.Gz {
 		suffix += ".gz"
 	}
@@ -106,7 +103,8 @@ func (r *Runner) walk() ev {
 			d["sidx"] = sidx
 			continue
 		}
-		if !strings.HasSuffix(name, suffix) || !e.Type().IsRegular() {
+		// (a name starting with a dot is never an object file: the library's temporary files are named that way)
+		if !strings.HasSuffix(name, suffix) || !e.Type().IsRegular() || strings.HasPrefix(name, ".") {
 			extra = append(extra, name)
 			continue
 		}
